@@ -15,42 +15,48 @@ open LoomVerif
 def outcomeStr : Outcome → String
   | .completed => "ok" | .limit => "ok" | .panicked p => p.render | .fuel => "capped"
 
-partial def exploreLoop (prog : Prog) (maxIters : Nat) (i : Nat) (e : Exec) : IO Unit := do
+structure Opts where
+  full : Bool := false      -- print S/P/H/O lines instead of the two digests
+  starts : Bool := false    -- in digest mode, also print the start path of every iteration
+  maxIters : Nat := 1000000
+
+partial def exploreLoop (o : Opts) (prog : Prog) (maxIters : Nat) (i : Nat) (e : Exec) : IO Unit := do
   if i > maxIters then
     IO.println s!"DONE {i - 1} capped"; return
   if Check.limitHit prog.cfg i then
     IO.println s!"DONE {i - 1} ok"; return
   IO.println s!"IT {i}"
-  IO.println s!"S {e.path.render}"
+  if o.full || o.starts then IO.println s!"S {e.path.render}"
   let r := runIter prog e
-  for l in r.lines do IO.println l
+  for l in (if o.full then r.lines else r.digestLines e.path) do IO.println l
   match r.term with
   | some p => IO.println s!"DONE {i} {p.render}"
   | none =>
     match r.exec.step with
     | none => IO.println s!"DONE {i} ok"
-    | some e' => exploreLoop prog maxIters (i + 1) e'
+    | some e' => exploreLoop o prog maxIters (i + 1) e'
 
-partial def exploreMain (maxIters : Nat) : IO Unit := do
+partial def exploreMain (o : Opts) : IO Unit := do
+  let maxIters := o.maxIters
   let stdin ← IO.getStdin
   let line ← stdin.getLine
   if line.isEmpty then return
   let line := line.trimAscii.toString
-  if line.isEmpty || line.startsWith "#" then exploreMain maxIters else
+  if line.isEmpty || line.startsWith "#" then exploreMain o else
   IO.println s!"PROG {line}"
   match Prog.parse line with
   | none => IO.println "DONE 0 parseError"
-  | some prog => exploreLoop prog maxIters 1 (Check.initExec prog.cfg)
+  | some prog => exploreLoop o prog maxIters 1 (Check.initExec prog.cfg)
   (← IO.getStdout).flush
-  exploreMain maxIters
+  exploreMain o
 
-partial def replayMain (prog : Option Prog) : IO Unit := do
+partial def replayMain (full : Bool) (prog : Option Prog) : IO Unit := do
   let stdin ← IO.getStdin
   let line ← stdin.getLine
   if line.isEmpty then return
   let line := line.trimAscii.toString
   if line.startsWith "PROG " then
-    replayMain (Prog.parse (line.drop 5).toString)
+    replayMain full (Prog.parse (line.drop 5).toString)
   else if line.startsWith "S " then
     match prog with
     | none => IO.println "ERR no program"
@@ -59,12 +65,12 @@ partial def replayMain (prog : Option Prog) : IO Unit := do
       | none => IO.println "ERR bad path"
       | some p =>
         let e := { Check.initExec pr.cfg with path := p }
-        IO.println s!"S {p.render}"
-        for l in (runIter pr e).lines do IO.println l
+        for l in (if full then (runIter pr e).lines else (runIter pr e).digestLines p) do
+          IO.println l
         IO.println "END"
     (← IO.getStdout).flush
-    replayMain prog
-  else replayMain prog
+    replayMain full prog
+  else replayMain full prog
 
 partial def stepMain : IO Unit := do
   let stdin ← IO.getStdin
@@ -82,10 +88,16 @@ partial def stepMain : IO Unit := do
   | _ => IO.println "ERR"
   stepMain
 
+def parseOpts : List String → Opts → Opts
+  | [], o => o
+  | "--full" :: r, o => parseOpts r { o with full := true }
+  | "--starts" :: r, o => parseOpts r { o with starts := true }
+  | "--max" :: n :: r, o => parseOpts r { o with maxIters := n.toNat?.getD o.maxIters }
+  | _ :: r, o => parseOpts r o
+
 def main (args : List String) : IO Unit := do
   match args with
-  | ["explore"] => exploreMain 1000000
-  | ["explore", n] => exploreMain (n.toNat?.getD 1000000)
-  | ["replay"] => replayMain none
+  | "explore" :: rest => exploreMain (parseOpts rest {})
+  | "replay" :: rest => replayMain (parseOpts rest {}).full none
   | ["step"] => stepMain
-  | _ => IO.eprintln "usage: lvdriver explore [maxIters] | replay | step"
+  | _ => IO.eprintln "usage: lvdriver explore [--full] [--starts] [--max n] | replay [--full] | step"
